@@ -667,42 +667,41 @@ def R5_badge_and_mustpass(run):
             continue
         for (mint, cfgacc, badge) in triples:
             found = False
-            msg = "no verify_supported_token_mint call for %s" % mint
+            msg = "no is_supported_token_mint(%s, is_token_badge_initialized(..)?)? test" % mint
+            # read with verify_supported_token_mint spliced in: is_supported_token_mint(mint, is_token_badge_initialized(config key,
+            # mint key, badge)?)? whose false result is UnsupportedTokenMint
             for bi, t in h.calls():
-                if not (callee_path(t) or "").endswith("verify_supported_token_mint"):
+                if not (callee_path(t) or "").endswith("::is_supported_token_mint") or h.blocks[bi]["c"]:
                     continue
-                args = [ph.operand(a, bi, len(h.blocks[bi]["s"])) for a in t["a"]]
-                if chain(args[0]) != "ctx.accounts." + mint:
+                a0 = [ph.operand(a, bi, len(h.blocks[bi]["s"])) for a in t["a"]]
+                if chain(a0[0]) != "ctx.accounts." + mint:
                     continue
-                found = True
-                if chain(args[2]) != "ctx.accounts." + badge:
-                    msg = "badge account for %s is %s, expected ctx.accounts.%s" % (mint, sh(args[2]), badge)
-                    found = False
+                inner = [x for x in subterms(a0[1]) if x[0] == "call" and x[1].endswith("::is_token_badge_initialized")]
+                if len(inner) != 1:
+                    msg = "the badge flag for %s is %s, expected is_token_badge_initialized(config key, mint key, badge)?" % (mint, sh(a0[1]))
                     continue
-                k = strip(args[1])
-                if cfgacc is not None:
-                    if not (is_call(k, "key") and chain(k[2][0]) == "ctx.accounts." + cfgacc):
-                        msg = "config key for %s is %s" % (mint, sh(k))
-                        found = False
-                        continue
-                else:
-                    # reward: the pool's own config
-                    if not (chain(k) or "").endswith("whirlpool.whirlpools_config"):
-                        msg = "config key for %s is %s, expected the pool's whirlpools_config" % (mint, sh(k))
-                        found = False
-                        continue
-                mp, why2 = cfg.must_pass_call(h, bi)
+                ia = inner[0][2]
+                mk = strip(ia[1])
+                if not (is_call(mk, "key") and chain(mk[2][0]) == "ctx.accounts." + mint):
+                    msg = "the badge of %s is looked up for mint %s" % (mint, sh(mk))
+                    continue
+                args = [a0[0], ia[0], ia[2]]
+                found = True                # its false result is the handler's UnsupportedTokenMint, on every path
+                gate = [at for at in A.atoms(h) if at.false_fail and "UnsupportedTokenMint" in at.false_codes and
+                        mentions(at.term, lambda x: x[0] == "call" and x[1].endswith("::is_supported_token_mint") and chain(x[2][0]) == "ctx.accounts." + mint)]
+                mp = bool(cfg.result_checked(h, bi)) and len(gate) == 1 and not cfg.success_reach(h, 0, cut_blocks=[gate[0].block])
+                why2 = "its error or its `false` is not the handler's failure on every path"
                 if not mp:
-                    msg = "verify_supported_token_mint(%s): %s" % (mint, why2)
+                    msg = "is_supported_token_mint(%s): %s" % (mint, why2)
                     found = False
                     continue
                 if not all(cfg.dominates(h, bi, e) for e in eff_blocks):
-                    msg = "verify_supported_token_mint(%s) does not dominate %s" % (mint, effect)
+                    msg = "the support test of %s does not dominate %s" % (mint, effect)
                     found = False
                     continue
                 break
             run.check("R5", "mustpass:%s@%s" % (mint, hpath), found, msg, loc=h.loc(),
-                      detail="verify_supported_token_mint(ctx.accounts.%s, config key, ctx.accounts.%s)? dominates %s" % (mint, badge, effect.rsplit("::", 1)[-1]))
+                      detail="!is_supported_token_mint(ctx.accounts.%s, badge(config key, mint key, ctx.accounts.%s)?)? => UnsupportedTokenMint, before %s" % (mint, badge, effect.rsplit("::", 1)[-1]))
     # badge accounts are bound by seeds to (config, mint)
     for spath, fields in (("instructions::v2::initialize_pool::InitializePoolV2", [("token_badge_a", "token_mint_a"), ("token_badge_b", "token_mint_b")]),
                           ("instructions::adaptive_fee::initialize_pool_with_adaptive_fee::InitializePoolWithAdaptiveFee", [("token_badge_a", "token_mint_a"), ("token_badge_b", "token_mint_b")]),
